@@ -353,6 +353,15 @@ func runProp(prop, modeName, tier string, seed uint64, outPath, replayDir, known
 					if keepOverride != nil {
 						keep = keepOverride
 					}
+					if keepOverride == nil && confirmedHangs.Load()+lockWedges.Load() >= 3 {
+						// three cases have already ended in a hang that showed again under the long
+						// limits (or with goroutines parked on a mutex): the violation is established,
+						// and every further case would cost its limits again
+						mu.Lock()
+						sum.Cov["skipped.after-three-confirmed-hangs"]++
+						mu.Unlock()
+						return
+					}
 					wedgesBefore := lockWedges.Load()
 					firedBefore := wdFired.Load()
 					t, err := j.spec.Run(keep)
